@@ -145,6 +145,26 @@ impl Naming {
         }
     }
 
+    /// For the namings whose names are a fixed function of the abstract number (kinds 1-6): two of the given
+    /// abstract slots whose (distinct) names the crate maps to ONE slot, if any. The renaming of a C11 / C12
+    /// run is injective on names by construction, so a collision is the crate's doing.
+    pub fn collision(kind: u32, names: &[S]) -> Option<(S, S, Slot)> {
+        if !(1..=6).contains(&kind) {
+            return None;
+        }
+        let n = Naming { kind, fwd: BTreeMap::new(), rev: BTreeMap::new(), next_unknown: UNKNOWN_BASE };
+        let mut seen: BTreeMap<Slot, S> = BTreeMap::new();
+        for s in names {
+            let x = n.make(*s);
+            if let Some(o) = seen.insert(x, *s) {
+                if o != *s {
+                    return Some((o, *s, x));
+                }
+            }
+        }
+        None
+    }
+
     /// makes the abstract slot `s` denote the real slot `x` from now on (used for pattern-local names:
     /// a pattern may spell its slots like any slot, e.g. like an internal slot of a class)
     pub fn force(&mut self, s: S, x: Slot) {
